@@ -84,11 +84,13 @@ def to_api_kwargs(kw):
 
 
 OPT2FLAG = {"f": "-f", "n": "-n", "m": "-m", "s": "-s", "a": "-a", "e": "-e", "d": "-d", "R": "-R", "u": "-u", "M": "-M", "r": "-r", "c": "-c", "w": "-w",
-            "L": "-L", "q": "-q", "O": "-O", "o": "-o", "j": "-j", "C": "-C", "E": "-E", "G": "--debug-file", "D": "-D", "T": "-T", "P": "--save-image"}
+            "L": "-L", "q": "-q", "O": "-O", "o": "-o", "j": "-j", "C": "-C", "E": "-E", "G": "--debug-file", "D": "-D", "T": "-T", "P": "--save-image",
+            "I": "-I", "F": "-F"}
 LONGFLAG = {"f": "--input-format", "n": "--min-duration", "m": "--max-duration", "s": "--max-silence", "a": "--analysis-window", "e": "--energy-threshold",
             "d": "--drop-trailing-silence", "R": "--strict-min-duration", "u": "--use-channel", "M": "--max-read", "r": "--rate",
             "c": "--channels", "w": "--width", "L": "--large-file", "q": "--quiet", "O": "--save-stream", "o": "--save-detections-as",
-            "j": "--join-detections", "C": "--command", "E": "--echo", "G": "--debug-file", "D": "--debug", "T": "--output-format", "P": "--save-image"}
+            "j": "--join-detections", "C": "--command", "E": "--echo", "G": "--debug-file", "D": "--debug", "T": "--output-format", "P": "--save-image",
+            "I": "--input-device-index", "F": "--audio-frame-per-buffer"}
 
 
 def fmt_seconds(units):
@@ -105,6 +107,8 @@ def build_job(idx, vec, tmproot, rng):
     fmt_opt = kw.get("audio_format", "none")
     if fmt_opt != "none":
         kind = fmt_opt          # -f names the format of a file whose extension says nothing
+    elif not kw["large_file"] and (set(vec["present"]) & {"I", "F"} or (set(vec["present"]) & {"C", "E", "G", "D", "T", "P"} and idx % 4 == 1)):
+        kind = "mic"            # no input argument at all: the default input, a (fake) PyAudio device holding the same recording
     sr, sw, ch = kw["sampling_rate"], kw["sample_width"], kw["channels"]
     if kind == "wav":
         # a wav file carries its own parameters: -r/-c/-w (and their defaults) must not matter
@@ -151,8 +155,9 @@ def build_job(idx, vec, tmproot, rng):
         argv += ["--time-format", tf]
     if pf is not None:
         argv += ["--printf", pf]
-    job = {"id": idx, "cwd": d, "argv": argv + (["-"] if kind == "stdin" else [path]), "stdin": path if kind == "stdin" else None,
-           "fx": bool(set(vec["present"]) & {"C", "E", "G", "D", "T", "P"})}
+    job = {"id": idx, "cwd": d, "argv": argv + (["-"] if kind == "stdin" else [] if kind == "mic" else [path]), "stdin": path if kind == "stdin" else None,
+           "mic": path if kind == "mic" else None,
+           "fx": bool(set(vec["present"]) & {"C", "E", "G", "D", "T", "P", "I", "F"}) or kind == "mic"}
     meta = {"kind": kind, "path": path, "fmt": [fsr, fsw, fch], "tf": tfk, "printf": pf, "dir": d, "data_len": len(data)}
     return job, meta, data
 
@@ -311,8 +316,8 @@ def check(prop, tier, replay=None):
         regs = []
         api_err = None
         try:
-            src = data if meta["kind"] == "stdin" else meta["path"]
-            if meta["kind"] == "stdin":
+            src = data if meta["kind"] in ("stdin", "mic") else meta["path"]
+            if meta["kind"] in ("stdin", "mic"):
                 api_kw.pop("large_file", None)
             if (Fraction(vec["kw"]["analysis_window"], U) * fsr).denominator != 1:
                 # -a times the rate is not a whole number of samples (0.01 s at 22050 Hz): split(file, analysis_window=a) counts windows of a
@@ -388,7 +393,12 @@ def check(prop, tier, replay=None):
         if "G" in present and vec["exit"] == 0:
             expected_files.add("debug.log")
         extra = [f for f in os.listdir(d) if f not in expected_files]
-        runs.append({"hasfx": bool(job.get("fx")), "fx": fxp, "present": sorted(present), "tf": meta["tf"], "exit": r["exit"] if isinstance(r["exit"], int) else -1,
+        # the device may be opened more than once (observation O13: the pinned code opens it twice and leaks the first stream); every opening must
+        # carry the prescribed parameters
+        mo_ = (r.get("fx") or {}).get("mic_opens", [])
+        fxp["mic_open"] = mo_[0] if mo_ and all(x_ == mo_[0] for x_ in mo_) else [0, 0, 0, 0, 0]
+        fxp["mic_opens"] = len(mo_)
+        runs.append({"mic": meta["kind"] == "mic", "micopen": list(vec.get("micopen", [0, 0, 0, 0, 0])), "hasfx": bool(job.get("fx")), "fx": fxp, "present": sorted(present), "tf": meta["tf"], "exit": r["exit"] if isinstance(r["exit"], int) else -1,
                      "raised": r["raised"] is not None, "lines": lines, "dets": dets, "stream_ok": bool(stream_ok), "joined_ok": bool(joined_ok),
                      "regions_ok": bool(regions_ok), "extra_files": len(extra), "unparsed": unparsed,
                      "info": {"argv": job["argv"][:-1] + [os.path.basename(job["argv"][-1])], "kind": meta["kind"], "fmt": meta["fmt"], "api_kwargs": {k: v for k, v in api_kw.items()},
@@ -412,7 +422,7 @@ def check(prop, tier, replay=None):
             s_, f_, ok_ = parse_time(tfk, fmt(v))
             lines.append({"id": j, "s": s_, "e": s_, "d": 0, "hasd": False, "sf": f_, "ef": f_, "fields_ok": bool(ok_)})
             dets.append({"sn": ms, "sd": 1, "en": ms, "ed": 1, "dn": 0, "dd": 1, "sms": int(v * 1000), "ems": int(v * 1000), "dms": 0})
-        runs.append({"hasfx": False, "fx": project_fx({}, {"stderr": ""}, set(), {"exit": 0}, [], b"", (1, 1, 1), None, {}), "present": [], "tf": tfk, "exit": 0, "raised": False, "lines": lines, "dets": dets, "stream_ok": True, "joined_ok": True,
+        runs.append({"mic": False, "micopen": [0, 0, 0, 0, 0], "hasfx": False, "fx": dict(project_fx({}, {"stderr": ""}, set(), {"exit": 0}, [], b"", (1, 1, 1), None, {}), mic_open=[0, 0, 0, 0, 0], mic_opens=0), "present": [], "tf": tfk, "exit": 0, "raised": False, "lines": lines, "dets": dets, "stream_ok": True, "joined_ok": True,
                      "regions_ok": True, "extra_files": 0, "unparsed": 0,
                      "info": {"argv": [f"make_duration_formatter({tf!r}) on {len(grid)} values up to 100 h"], "kind": "formatter", "fmt": [], "api_kwargs": {},
                               "stdout": " ".join(fmt(ms / 1000) for ms in grid[:6]), "stderr": "", "raised": None, "api_error": None, "extra_files": [], "threads_left": 0}})
